@@ -72,9 +72,9 @@ func (m *mrtWriter) dumpTable() []*mrt.MRTMessage {
 			return p.index
 		}
 		newIdx := uint16(len(peermap))
-		if p.GetSource().Address == netip.IPv4Unspecified() {
+		if p.IsLocal() {
 			// Adding dummy Peer record for locally generated routes
-			peermap[netip.IPv4Unspecified()] = dumpPeer{
+			peermap[p.GetSource().Address] = dumpPeer{
 				index: newIdx,
 				addr:  netip.IPv4Unspecified(),
 				id:    netip.IPv4Unspecified(),
